@@ -27,7 +27,9 @@ AtomsCols == [ atomic    |-> <<"id", "type", "x", "y", "z">>,
                angle     |-> <<"id", "mol", "type", "x", "y", "z">>,
                full      |-> <<"id", "mol", "type", "q", "x", "y", "z">>,
                sphere    |-> <<"id", "type", "diameter", "density", "x", "y", "z">>,
-               hybridq   |-> <<"id", "type", "x", "y", "z", "q">> ]          \* "hybrid charge": atomic columns, then the sub-style's extra ones
+               hybridq   |-> <<"id", "type", "x", "y", "z", "q">>,           \* "hybrid charge": atomic columns, then the sub-style's extra ones
+               hybridsq  |-> <<"id", "type", "x", "y", "z", "diameter", "density", "q">> ]     \* "hybrid sphere charge"
+\* Velocities section: id vx vy vz, plus the angular velocity wx wy wz for sphere-like styles (y.nvel = 4 or 7)
 VelCols == << "id", "vx", "vy", "vz" >>
 IndexOf(seq, v) == CHOOSE i \in 1..Len(seq) : seq[i] = v
 Has(seq, v) == \E i \in 1..Len(seq) : seq[i] = v
@@ -128,10 +130,12 @@ VerdictData(r) ==
     ELSE IF \E i \in 1..Len(g.rows) : LET row == g.rows[i] IN Len(row.v) = nc + 3 /\
               (\E ax \in 1..3 : ~y.pbc[ax] /\ row.v[nc + ax] # 0) THEN "image_flag_along_a_non_periodic_direction"
     ELSE IF (Len(g.vrows) > 0) # (Len(y.vel) > 0) THEN "velocities_section_present_iff_the_system_has_velocities_violated"
-    ELSE IF \E i \in 1..Len(g.vrows) : Len(g.vrows[i].v) # 4 \/ g.vrows[i].v[1] < 1 \/ g.vrows[i].v[1] > y.natoms THEN "velocity_line_malformed"
+    ELSE IF \E i \in 1..Len(g.vrows) : Len(g.vrows[i].v) # y.nvel \/ g.vrows[i].v[1] < 1 \/ g.vrows[i].v[1] > y.natoms THEN "velocity_line_malformed"
     ELSE IF \E i \in 1..Len(g.vrows) : \E j \in (i+1)..Len(g.vrows) : g.vrows[i].v[1] = g.vrows[j].v[1] THEN "duplicate_id_in_Velocities"
     ELSE IF \E i \in 1..Len(g.vrows) : LET row == g.vrows[i]  ex == y.vel[row.v[1]] IN
               \E d \in 1..3 : ~Close(row.v[1 + d], ex[d], sl) THEN "velocity_not_in_the_requested_units"
+    ELSE IF y.nvel = 7 /\ (\E i \in 1..Len(g.vrows) : LET row == g.vrows[i]  ex == y.omega[row.v[1]] IN
+              \E d \in 1..3 : ~Close(row.v[4 + d], ex[d], sl)) THEN "angular_velocity_not_in_the_requested_units"
     ELSE IF r.info.units # y.units THEN "command_snippet_names_another_unit_style"
     ELSE IF r.info.atom_style # y.stylename THEN "command_snippet_names_another_atom_style"
     ELSE IF r.info.boundary # [ax \in 1..3 |-> IF y.pbc[ax] THEN "p" ELSE "m"] /\ r.info.boundary # [ax \in 1..3 |-> IF y.pbc[ax] THEN "p" ELSE "f"]
